@@ -134,7 +134,9 @@ Proof.
   intros HL Hb. unfold SendUdp.udp_append_payload, udp_append, at_off_len, cap. cbn [arr len].
   rewrite skipn_length, HL.
   replace (SendBase.EthMaxSize - o - 8)%nat with (SendBase.EthMaxSize - o - 8)%nat by reflexivity.
-  destruct (Nat.ltb_spec (SendBase.EthMaxSize - o - 8) (length payload)) as [C|C]; [reflexivity|].
+  destruct (Nat.ltb_spec (SendBase.EthMaxSize - o - 8) (length payload)) as [C|C].
+  { destruct (Nat.ltb_spec (SendBase.EthMaxSize - o) (8 + length payload)) as [_|C']; [reflexivity|unfold SendBase.EthMaxSize in *; blia]. }
+  destruct (Nat.ltb_spec (SendBase.EthMaxSize - o) (8 + length payload)) as [C'|_]; [unfold SendBase.EthMaxSize in *; blia|].
   eexists. split.
   { unfold copyfrom, put16, reslice, cap. stepw. reflexivity. }
   split; [reflexivity|]. cbn [arr].
@@ -182,7 +184,9 @@ Proof.
   assert (Hu : u8 nh = nh) by (unfold u8; apply N.mod_small; exact Hnh).
   unfold Send.ip6_append_payload, ip6_append, at_off_len, cap. cbn [arr len orb].
   rewrite skipn_length, HL.
-  destruct (Nat.ltb_spec (SendBase.EthMaxSize - o - 40) (length payload)) as [C|C]; [reflexivity|].
+  destruct (Nat.ltb_spec (SendBase.EthMaxSize - o - 40) (length payload)) as [C|C].
+  { destruct (Nat.ltb_spec (SendBase.EthMaxSize - o) (40 + length payload)) as [_|C']; [reflexivity|unfold SendBase.EthMaxSize in *; blia]. }
+  destruct (Nat.ltb_spec (SendBase.EthMaxSize - o) (40 + length payload)) as [C'|_]; [unfold SendBase.EthMaxSize in *; blia|].
   set (n := length payload) in *.
   assert (Hn : N.of_nat n < 65536) by (unfold SendBase.EthMaxSize in *; lia).
   assert (Eu : u16 (N.of_nat n) = N.of_nat n) by (unfold u16; apply N.mod_small; exact Hn).
@@ -287,7 +291,9 @@ Proof.
   assert (Hu : u8 proto = proto) by (unfold u8; apply N.mod_small; exact Hpr).
   unfold Send.ip4_append_payload, ip4_append, at_off_len, cap. cbn [arr len].
   rewrite skipn_length, HL.
-  destruct (Nat.ltb_spec (SendBase.EthMaxSize - o - 20) (length payload)) as [C|C]; [reflexivity|].
+  destruct (Nat.ltb_spec (SendBase.EthMaxSize - o - 20) (length payload)) as [C|C].
+  { destruct (Nat.ltb_spec (SendBase.EthMaxSize - o) (20 + length payload)) as [_|C']; [reflexivity|unfold SendBase.EthMaxSize in *; blia]. }
+  destruct (Nat.ltb_spec (SendBase.EthMaxSize - o) (20 + length payload)) as [C'|_]; [unfold SendBase.EthMaxSize in *; blia|].
   set (n := length payload) in *.
   assert (Hn : 20 + N.of_nat n < 65536) by (unfold SendBase.EthMaxSize in *; lia).
   set (tl := u16 (20 + N.of_nat n)).
